@@ -897,6 +897,237 @@ def macro_call_family():
     return plain, equiv
 
 
+# ================================================================================================
+# the printer with MINIMAL parentheses (documented precedence and associativity of the expression
+# grammar: if-else < or < and < not < comparison chain < + - < ~ < * // % < unary minus, postfix,
+# filters and tests < primary; binary operators group to the left, the else part of a conditional
+# extends to the right, a filter / test / subscript applies to the unary-minus expression in front)
+# ================================================================================================
+_BIN_LEVEL = {"+": 5, "-": 5, "~": 6, "*": 7, "//": 7, "%": 7, "/": 7}
+
+
+def _lvl(e):
+    t = e[0]
+    if t == "ifexpr": return 0
+    if t == "or": return 1
+    if t == "and": return 2
+    if t == "not": return 3
+    if t == "cmp": return 4
+    if t == "bin": return _BIN_LEVEL[e[1]]
+    if t == "neg" or (t == "int" and e[1] < 0): return 9
+    if t in ("filter", "test", "item", "attr", "call"): return 9
+    return 10
+
+
+_UNSAFE_AFTER_TEST = {"if", "in", "not", "+", "-", "[", "ident", "lit", "is"}
+
+
+def min_expr(e, need=0, nxt="end"):
+    """source of e for a position that takes expressions of level >= need and is followed by token nxt"""
+    t = e[0]
+    if _lvl(e) < need:
+        return "(" + min_expr(e, 0, ")") + ")"
+    M = min_expr
+    if t == "int": return str(e[1])
+    if t in ("str", "bool", "none", "var"): return proggen.expr_src(e)
+    if t == "list": return "[" + ", ".join(M(x, 0, ",") for x in e[1]) + "]"
+    if t == "map": return "{" + ", ".join(M(k, 0, ":") + ": " + M(v, 0, ",") for k, v in e[1]) + "}"
+    if t == "neg":
+        inner = e[1]
+        if inner[0] == "neg" or (inner[0] == "int" and inner[1] < 0): return "- " + M(inner, 9, nxt)
+        return "-" + M(inner, 10, nxt)
+    if t == "not": return "not " + M(e[1], 3, nxt)
+    if t == "bin":
+        l = _BIN_LEVEL[e[1]]
+        return M(e[2], l, e[1] if e[1] in ("+", "-") else "op") + " " + e[1] + " " + M(e[3], l + 1, nxt)
+    if t == "cmp":
+        s = M(e[1], 5, "in" if e[2][0][0] in ("in", "notin") else "op")
+        for j, (op, r) in enumerate(e[2]):
+            after = nxt if j == len(e[2]) - 1 else ("in" if e[2][j + 1][0] in ("in", "notin") else "op")
+            s += " " + ("not in" if op == "notin" else op) + " " + M(r, 5, after)
+        return s
+    if t == "and": return M(e[1], 2, "and") + " and " + M(e[2], 3, nxt)
+    if t == "or": return M(e[1], 1, "or") + " or " + M(e[2], 2, nxt)
+    if t == "ifexpr":
+        if e[3] is None: return M(e[2], 1, "if") + " if " + M(e[1], 1, nxt)
+        return M(e[2], 1, "if") + " if " + M(e[1], 1, "else") + " else " + M(e[3], 0, nxt)
+    if t == "item": return M(e[1], 9, "[") + "[" + M(e[2], 0, "]") + "]"
+    if t == "attr": return M(e[1], 9, ".") + "." + e[2]
+    if t == "filter":
+        return M(e[2], 9, "|") + "|" + e[1] + (("(" + ", ".join(M(a, 0, ",") for a in e[3]) + ")") if e[3] else "")
+    if t == "test":
+        src = M(e[2], 9, "is") + (" is not " if e[4] else " is ") + e[1]
+        if e[3]: return src + "(" + ", ".join(M(a, 0, ",") for a in e[3]) + ")"
+        # a test without arguments takes a following operand-like token as its argument: keep the parentheses there
+        return ("(" + src + ")") if nxt in _UNSAFE_AFTER_TEST else src
+    if t == "call":
+        return e[1] + "(" + ", ".join([M(a, 0, ",") for a in e[2]] + [k + "=" + M(v, 0, ",") for k, v in e[3]]) + ")"
+    raise ValueError(t)
+
+
+def min_body(body):
+    return "".join(min_stmt(s) for s in body)
+
+
+def min_stmt(s):
+    t = s[0]
+    X = min_expr
+    if t == "emit": return "{{ " + X(s[1]) + " }}"
+    if t == "if":
+        out = ""
+        for i, (c, b) in enumerate(s[1]):
+            out += "{% " + ("if " if i == 0 else "elif ") + X(c) + " %}" + min_body(b)
+        if s[2] is not None:
+            out += "{% else %}" + min_body(s[2])
+        return out + "{% endif %}"
+    if t == "for":
+        tgt = s[1] if isinstance(s[1], str) else ", ".join(s[1])
+        out = "{% for " + tgt + " in " + X(s[2], 1, "if" if s[3] is not None else "end")     # the subject is not a conditional: `if` starts the filter
+        if s[3] is not None: out += " if " + X(s[3], 0, "ident" if s[6] else "end")
+        if s[6]: out += " recursive"
+        out += " %}" + min_body(s[4])
+        if s[5] is not None: out += "{% else %}" + min_body(s[5])
+        return out + "{% endfor %}"
+    if t == "set": return "{% set " + proggen.target_src(s[1]) + " = " + X(s[2]) + " %}"
+    if t == "setblock": return "{% set " + s[1] + ((" | " + s[3]) if s[3] else "") + " %}" + min_body(s[2]) + "{% endset %}"
+    if t == "with": return "{% with " + ", ".join(proggen.target_src(n, True) + " = " + X(e, 0, ",") for n, e in s[1]) + " %}" + min_body(s[2]) + "{% endwith %}"
+    if t == "macro":
+        dflt = dict(s[3])
+        params = [q + ((" = " + X(dflt[q], 0, ",")) if q in dflt else "") for q in s[2]]
+        return "{% macro " + s[1] + "(" + ", ".join(params) + ") %}" + min_body(s[4]) + "{% endmacro %}"
+    if t == "callblock": return "{% call " + s[1] + "(" + ", ".join(X(a, 0, ",") for a in s[2]) + ") %}" + min_body(s[3]) + "{% endcall %}"
+    if t == "filterblock": return "{% filter " + s[1] + " %}" + min_body(s[2]) + "{% endfilter %}"
+    if t == "autoescape": return "{% autoescape " + X(s[1]) + " %}" + min_body(s[2]) + "{% endautoescape %}"
+    return proggen.stmt_src(s)
+
+
+def precedence_family():
+    """(body, ctx): every expression form directly under every other one, in every operand position, with
+    operand values that tell the groupings apart (the random programs get their minimal-parentheses
+    printing too; this family makes the pairs certain)."""
+    I = lambda n: ("int", n); V = lambda x: ("var", x); S = lambda t: ("str", t)
+    ctx = {"a": 7, "b": 2, "c": 3, "t": True, "f": False, "s": "x", "l": [5, -6, 7], "z": 0}
+    atoms = [V("a"), V("b"), I(3), I(-4), V("z")]
+    def forms(x, y, w):
+        """every constructor with operands x, y, w"""
+        return [("ifexpr", x, y, w), ("ifexpr", x, y, None), ("or", x, y), ("and", x, y), ("not", x),
+                ("cmp", x, [("<", y)]), ("cmp", x, [("==", y)]), ("cmp", x, [("<", y), ("<=", w)]), ("cmp", x, [("in", ("list", [y, w]))]),
+                ("cmp", x, [("notin", ("list", [y]))]), ("bin", "+", x, y), ("bin", "-", x, y), ("bin", "~", x, y), ("bin", "*", x, y),
+                ("bin", "//", x, ("or", y, I(1))), ("bin", "%", x, ("or", y, I(5))), ("neg", x), ("filter", "abs", x, []), ("filter", "string", x, []),
+                ("filter", "default", x, [y]), ("test", "odd", x, [], False), ("test", "defined", x, [], True), ("test", "none", x, [], False),
+                ("item", ("list", [x, y, w]), I(1)), ("item", V("l"), x), ("list", [x, y])]
+    out = []
+    outer = forms(V("a"), V("b"), V("c"))
+    k = 0
+    for oi, o in enumerate(outer):
+        # operand positions of the outer form
+        nops = 3 if o[0] in ("ifexpr",) and o[3] is not None else (1 if o[0] in ("not", "neg", "test", "filter") and o[1] != "default" else 2)
+        for pos in range(nops):
+            body = []
+            for inner in forms(atoms[k % 5], atoms[(k + 1) % 5], atoms[(k + 2) % 5]):
+                k += 1
+                ops = [V("a"), V("b"), V("c")]
+                ops[pos] = inner
+                e = forms(*ops)[oi]
+                body += [("emit", e), ("raw", ",")]
+            for i in range(0, len(body), 16):
+                out.append((body[i:i + 16], ctx))
+    # chains of one operator (associativity) and the classic pairs
+    A, B, C, D = V("a"), V("b"), V("c"), I(4)
+    for op in ("-", "//", "%", "~", "+", "*"):
+        out.append(([("emit", ("bin", op, ("bin", op, A, B), C)), ("raw", ","), ("emit", ("bin", op, A, ("bin", op, B, C))), ("raw", ","),
+                     ("emit", ("bin", op, ("bin", op, ("bin", op, D, A), B), C)), ("raw", ","), ("emit", ("bin", op, D, ("bin", op, A, ("bin", op, B, C))))], ctx))
+    cond = lambda c, x, y: ("ifexpr", c, x, y)
+    T, F = V("t"), V("f")
+    for c1 in (T, F):
+        for c2 in (T, F):
+            for c3 in (T, F):
+                out.append(([("emit", cond(c1, S("A"), cond(c2, S("C"), S("E")))), ("raw", ","),                 # a if c1 else c if c2 else e
+                             ("emit", cond(c2, cond(c1, S("A"), S("C")), S("E"))), ("raw", ","),                 # (a if c1 else c) if c2 else e
+                             ("emit", cond(c1, S("A"), cond(c2, S("C"), cond(c3, S("E"), S("G"))))), ("raw", ","),
+                             ("emit", cond(cond(c1, c2, c3), S("A"), S("B"))), ("raw", ","),                     # a conditional as condition
+                             ("emit", cond(c1, S("A"), cond(c2, S("C"), None))), ("raw", ","),
+                             ("emit", cond(c2, cond(c1, S("A"), None), S("E"))), ("raw", ","),
+                             ("emit", ("or", cond(c1, F, T), c3)), ("raw", ","), ("emit", cond(c1, F, ("or", T, c3)))], ctx))
+    return out
+
+
+def _assigned_names(body, acc):
+    for st in body:
+        if st[0] == "set": acc.update([st[1]] if isinstance(st[1], str) else st[1])
+        elif st[0] == "setblock": acc.add(st[1])
+        elif st[0] == "macro": acc.add(st[1])
+        for b in proggen._sub_bodies(st):
+            _assigned_names(b, acc)
+
+
+def _names_read(x, acc):
+    """every identifier that occurs in an AST (over-approximation of the free names)"""
+    if isinstance(x, tuple):
+        if x and x[0] == "var": acc.add(x[1])
+        if x and x[0] == "call": acc.add(x[1])
+        for y in x: _names_read(y, acc)
+    elif isinstance(x, list):
+        for y in x: _names_read(y, acc)
+
+
+def wrap_program(body):
+    """splits a program into its leading definitions (set, set-block, macro) and the statements after them,
+    up to the next top-level definition; None when moving the rest into a block / another template could
+    change what the program means (a macro of the prefix reads a name the rest assigns)"""
+    i = 0
+    while i < len(body) and body[i][0] in ("set", "setblock", "macro"):
+        i += 1
+    prefix = body[:i]
+    rest = []
+    for st in body[i:]:
+        if st[0] in ("set", "setblock", "macro"):
+            break
+        rest.append(st)
+    if not prefix or not rest:
+        return None
+    assigned = set(); _assigned_names(rest, assigned)
+    read = set()
+    for st in prefix:
+        if st[0] == "macro": _names_read(st, read)
+    if assigned & read:
+        return None
+    defined = []
+    for st in prefix:
+        for n in ([st[1]] if isinstance(st[1], str) else list(st[1])):
+            if n not in defined: defined.append(n)
+    return prefix, rest, defined
+
+
+def capture_family():
+    """(body, ctx): leading set-blocks of every shape (plain, with a filter, bodies with loops / ifs / macro
+    calls / nested set-blocks / filter blocks), variables and macros depending on them, then their uses"""
+    V = lambda x: ("var", x); E = lambda e: ("emit", e); R = lambda t: ("raw", t)
+    ctx = {"name": "World", "seq": [1, 2, 3], "flag": True}
+    bodies = [
+        [R("Hello "), E(V("name"))],
+        [("for", "x", V("seq"), None, [R("<"), E(V("x")), ("if", [(("not", ("attr", V("loop"), "last")), [R(",")])], None), R(">")], None, False)],
+        [("if", [(V("flag"), [R("yes "), E(V("name"))])], [R("no")])],
+        [("setblock", "inner", [R("in "), E(V("name"))], "upper"), E(V("inner")), R("!")],
+        [("filterblock", "upper", [R("shout "), E(V("name"))])],
+        [R(" padded "), E(("filter", "length", V("seq"), []))],
+    ]
+    out = []
+    for bi, b in enumerate(bodies):
+        for flt in (None, "upper", "trim"):
+            sb = ("setblock", "h", b, flt)
+            uses = [R("["), E(V("h")), R("]"), E(("test", "defined", V("h"), [], False)), E(("filter", "length", V("h"), []))]
+            out.append(([sb] + uses, ctx))
+            out.append(([("set", "p", ("bin", "~", ("str", "P "), V("name"))), sb, ("set", "both", ("bin", "~", V("p"), V("h")))] + uses + [E(V("both"))], ctx))
+            out.append(([sb, ("macro", "greet", ["who"], [("who", V("h"))], [E(V("h")), R("/"), E(V("who")), R("!")])]
+                        + [E(("call", "greet", [], [])), R("|"), E(("call", "greet", [("str", "you")], []))] + uses, ctx))
+            out.append(([("macro", "mk", [], [], [("setblock", "loc", b, flt), R("("), E(V("loc")), R(")")]), sb]
+                        + [E(("call", "mk", [], []))] + uses, ctx))
+            out.append(([sb, ("setblock", "h2", [E(V("h")), R("+"), E(V("h"))], None), ("set", ["u", "v"], ("list", [V("h"), V("h2")]))]
+                        + uses + [E(V("h2")), E(V("u")), E(V("v"))], ctx))
+    return out
+
+
 def main():
     chk = Check("C03", "proof")
     chk.cov["trusted_base"] = TRUSTED_COMMON + ["Print Assumptions of the C03 theorems: see coverage.theorems",
